@@ -80,6 +80,7 @@ ObsOKFor(g, obs) ==
     /\ Req(<<"obs-rt", IF Has(obs, "rt") THEN {f \in DOMAIN obs.rt : obs.rt[f] = FALSE} ELSE {}>>, Has(obs, "rt") => AllTrue(obs.rt))
     /\ (Has(obs, "exact") /\ ~IsEmpty(g)) => ExactOK(g, obs.exact)
     /\ Req(<<"obs-grad", IF Has(obs, "grad") THEN {f \in DOMAIN obs.grad : obs.grad[f] = FALSE} ELSE {}>>, Has(obs, "grad") => AllTrue(obs.grad))
+    /\ Req(<<"obs-cli", IF Has(obs, "cli") THEN {f \in DOMAIN obs.cli : obs.cli[f] = FALSE} ELSE {}>>, Has(obs, "cli") => AllTrue(obs.cli))
     /\ Req(<<"obs-twin", IF Has(obs, "twin") THEN {f \in DOMAIN obs.twin : obs.twin[f] = FALSE} ELSE {}>>, Has(obs, "twin") => AllTrue(obs.twin))
 
 \* C08: once limits are stored, no needed point lies, in a limited dimension, on a level above the limit.
@@ -131,7 +132,10 @@ TMake == /\ IsEvent("make")
                      T == SelectTensors(a.fam, a.rule, a.dims, a.depth, a.type, a.aw, a.ll)
                      P == Range(StOf(Ev.o).need) \cup Range(StOf(Ev.o).pts)
                  IN Commit(Ev.o, Ok(Fresh(a.fam, a.rule, a.order, a.dims, a.outs, P, T, a.ll, a.alpha, a.beta)))
-            ELSE Commit(Ev.o, Make(G(Ev.o), MakeArgs))
+            ELSE LET res == Make(G(Ev.o), MakeArgs)
+                 IN \* the command-line front end passes the domain transform together with the make command
+                    IF Has(Ev.a, "ta") /\ res.r = "ok" THEN Commit(Ev.o, Ok([res.g EXCEPT !.ta = Ev.a.ta, !.tb = Ev.a.tb]))
+                    ELSE Commit(Ev.o, res)
          /\ Unch
 TLoad == /\ IsEvent("load")
          /\ IF Ev.r = "skipped" THEN Commit(Ev.o, [g |-> G(Ev.o), r |-> "skipped"]) /\ G(Ev.o).pts = {} /\ G(Ev.o).need = {}
@@ -292,7 +296,6 @@ GridInv(g) ==
     /\ g.pts \cap g.need = {}                                              \* C07 disjoint
     /\ DOMAIN g.ep = g.pts \/ g.pts = {}                                   \* every loaded point has its value
     /\ \A p \in g.pts \cup g.need : Len(p) = g.dims
-    /\ (g.con => (DOMAIN g.park) \cap g.pts = {})                          \* parked samples are not loaded twice
 TInv == GridInv(gs[1]) /\ GridInv(gs[2])
 
 LimitInv(g) == IsEmpty(g) \/ ~NestedFam(g) \/ \A p \in g.need : NeedWithin(g, p)
